@@ -103,7 +103,7 @@ def t_spaces(line, rng):
         operand = re.sub(r"\s*([+*&|]|<<|>>)\s*", lambda k: rng.choice(["", " ", "  "]) + k.group(1) + rng.choice(["", " "]), operand)
         operand = re.sub(r"\s*,\s*", lambda k: rng.choice(["", " "]) + "," + rng.choice(["", " ", "  "]), operand)
         operand = re.sub(r"([(\[])\s*(?=[0-9a-zA-Z_])", lambda k: k.group(1) + rng.choice(["", " "]), operand)
-        operand = re.sub(r"(?<=[0-9a-fA-F])\s*([)\]])", lambda k: rng.choice(["", " "]) + k.group(1) if not re.search(r",\s*[xysXYS]\s*$", operand[:k.start()]) else k.group(0), operand)
+        operand = re.sub(r"(?<=[0-9a-zA-Z])\s*([)\]])", lambda k: rng.choice(["", " "]) + k.group(1), operand)  # also after an inner index register: `(0x10,s ),y`
         operand = re.sub(r"^#\s*", lambda k: "#" + rng.choice(["", " "]), operand)
         return f"{m.group(1)}{m.group(2)}{m.group(3) or ''}{rng.choice([' ', '  ', '   '])}{operand}"
     if line.strip().startswith((".db", ".dw", ".dl")) or ":=" in line or re.match(r"^\s*\w+\s*=", line):
